@@ -175,7 +175,7 @@ def plan(prop, tier):
     if prop == 'C15':
         return {'stages': match_stages('pathver', 0, 6 if q else 7) + match_stages('headerver', 0, 1), 'rule': RULE_MATCH, 'assumptions': ASSUME_COMMON}
     if prop == 'C13':
-        return {'stages': group_stages(2 if q else 3, 'C13', 0.5 if q else 0.25) + [gogen('bytes', 60 if q else 1500, fam='group', trace='Trace_Group')],
+        return {'stages': group_stages(2 if q else 3, 'C13', 0.5 if q else 0.03) + [gogen('bytes', 60 if q else 1500, fam='group', trace='Trace_Group')],
                 'rule': RULE_GROUP, 'assumptions': ASSUME_COMMON}
     if prop == 'C16':
         st = group_stages(2, 'C16', 0.08 if q else 0.5)
@@ -269,7 +269,7 @@ def p_c19(q):
     if q:
         return [mc_router('T'), subF(gen_bfs('F', 2, sample=0.25, **F)), gen_bfs('FC', 3, module='MC_RouterF', extra='MirrorExtra'),
                 subF(gen_sim('F', 8, 8, module='MC_RouterF', extra='MirrorExtra'))]
-    return [mc_router('T'), subF(gen_bfs('F', 2, **F)), gen_bfs('FC', 3, module='MC_RouterF', extra='MirrorExtra'), subF(gen_bfs('F', 3, name='bfsF3', sample=0.02, **F)),
+    return [mc_router('T'), subF(gen_bfs('F', 2, **F)), gen_bfs('FC', 3, module='MC_RouterF', extra='MirrorExtra'), subF(gen_bfs('F', 3, name='bfsF3', sample=0.004, **F)),
             subF(gen_sim('F', 14, 60, module='MC_RouterF', extra='MirrorExtra'))]
 
 
@@ -277,7 +277,7 @@ def p_c09(q):
     F = dict(module='MC_RouterF')
     if q:
         return [mc_router('T'), subF(gen_bfs('F', 2, sample=0.25, **F)), subF(gen_sim('F', 8, 8, module='MC_RouterF'))] + group_stages(2, 'C13', 0.1)[2:]
-    return [mc_router('T'), subF(gen_bfs('F', 2, **F)), subF(gen_bfs('F', 3, name='bfsF3', sample=0.02, **F)), subF(gen_sim('F', 14, 60, module='MC_RouterF'))] + group_stages(2, 'C13', 0.5)[2:]
+    return [mc_router('T'), subF(gen_bfs('F', 2, **F)), subF(gen_bfs('F', 3, name='bfsF3', sample=0.004, **F)), subF(gen_sim('F', 14, 60, module='MC_RouterF'))] + group_stages(2, 'C13', 0.5)[2:]
 
 
 def p_c18(q):
